@@ -153,7 +153,8 @@ class RF24:
         while force_retry and not result:
             result = self.resend(send_only)
             force_retry -= 1
-        if self._status & 0x60 == 0x60 and not send_only:
+        if result is True and self._status & 0x60 == 0x60 and not send_only:
+            # (a forced resend() has already fetched its ACK payload)
             result = self.read()
         return result
 
